@@ -24,6 +24,8 @@ LO, HI = -5, 5
 BOUNDS = [None] + list(range(LO, HI + 1))
 STEPS = [None, 1, 2, 3]
 REPS = ["dense", "diag", "root", "lazysum", "broadcast", "lazybroadcast"]
+# + a lazy MVN whose MEAN has fewer batch dimensions than the covariance operator (methods only, not the index sweep)
+REPS_ALL = REPS + ["lazymeanbroadcast"]
 
 torch.set_default_dtype(torch.float64)
 
@@ -40,10 +42,15 @@ def make(n, bshape, rep, seed=0, full_rank=False):
     """returns (dist, mean, dense covariance expanded to the batch shape of mean)"""
     from gpytorch.distributions import MultivariateNormal as MVN
     from linear_operator.operators import DenseLinearOperator, DiagLinearOperator, RootLinearOperator
-    g = torch.Generator().manual_seed(seed * 7919 + 97 * n + 13 * len(bshape) + REPS.index(rep))
+    g = torch.Generator().manual_seed(seed * 7919 + 97 * n + 13 * len(bshape) + REPS_ALL.index(rep))
     bshape = tuple(bshape)
     mean = dyadic(g, *bshape, n)
     cb = bshape
+    if rep == "lazymeanbroadcast":
+        marg = dyadic(g, *bshape[1:], n)
+        A = dyadic(g, *cb, n, n, den=2, rng=3)
+        dense = A @ A.transpose(-1, -2) / 4 + torch.eye(n) * 1.5
+        return MVN(marg, DenseLinearOperator(dense)), marg.expand(*bshape, n), dense
     if rep in ("broadcast", "lazybroadcast"):
         cb = bshape[1:] if len(bshape) else ()
         if len(bshape) == 2:
@@ -236,7 +243,7 @@ def run_density(out, ctx):
     nseeds = 1 if tier == "quick" else 4
     for n in range(1, 5):
         for bshape in ((), (2,), (2, 1)):
-            for rep in REPS:
+            for rep in REPS_ALL:
                 for sd in range(nseeds):
                     d, mean, cov = make(n, bshape, rep, seed=seed * 10 + sd + 1, full_rank=True)
                     g = torch.Generator().manual_seed(n * 31 + len(bshape) + sd)
@@ -280,8 +287,9 @@ def run_density(out, ctx):
     kl_jobs, kl_cases = [], []
     for n in range(1, 5):
         for (bp, bq) in (((), ()), ((2,), (2,)), ((2,), ()), ((), (2,))):
-            for rp, rq in itertools.product(REPS, REPS):
-                if tier == "quick" and (REPS.index(rp) + REPS.index(rq) + n) % 2:
+            for rp, rq in list(itertools.product(REPS, REPS)) + [("lazymeanbroadcast", "dense"), ("dense", "lazymeanbroadcast"),
+                                                                  ("lazymeanbroadcast", "lazymeanbroadcast")]:
+                if tier == "quick" and rp in REPS and rq in REPS and (REPS.index(rp) + REPS.index(rq) + n) % 2:
                     continue
                 p, mp, cp = make(n, bp, rp, seed=seed + 11, full_rank=True)
                 q, mq, cq_ = make(n, bq, rq, seed=seed + 23, full_rank=True)
@@ -328,7 +336,7 @@ def run_sampling_affine(out, ctx):
     af_jobs, af_cases = [], []
     for n in range(1, 5):
         for bshape in ((), (2,), (2, 3)):
-            for rep in REPS:
+            for rep in REPS_ALL:
                 d, mean, cov = make(n, bshape, rep, seed=seed + 5)
                 case = dict(n=n, batch_shape=list(bshape), rep=rep)
                 nt = n > 1
@@ -509,7 +517,8 @@ def run(out, ctx):
                      None, no_input=True)
     out.exhaustive = True
     out.rule = ("event sizes 1..4, batch shapes (), (2,), (2,3); covariance as dense tensor / DiagLinearOperator / RootLinearOperator "
-                "(rank n-1) / lazy sum / broadcast (covariance batch smaller than the mean's; dense and lazy); indexing: under every batch prefix "
+                "(rank n-1) / lazy sum / broadcast (covariance batch smaller than the mean's; dense and lazy; for the methods also a lazy MVN whose "
+                "mean has fewer batch dimensions than the covariance); indexing: under every batch prefix "
                 "(ints, slices, ellipsis) every last component int -n-1..n and slice with start/stop in {None,-5..5}, step in "
                 "{None,1,2,3} (exhaustive for dense, strided sample for the other representations), index tensors, trailing "
                 "ellipsis, batch-only and malformed tuples; log_prob for 4-5 value shapes broadcasting both ways, fast path on/off; "
